@@ -35,6 +35,8 @@ enum EchoKind {
     WrongId,
     Duplicate,
     StopAfter(usize),
+    /// first Keep Alive echoed correctly, later ones with the id of their predecessor
+    Previous,
 }
 
 fn lat_choices() -> Vec<Duration> {
@@ -54,6 +56,7 @@ fn generate(cli: &Cli) -> Vec<Case> {
         EchoKind::Duplicate,
         EchoKind::StopAfter(1),
         EchoKind::StopAfter(2),
+        EchoKind::Previous,
     ];
     let mut rng = Rng::stream(cli.seed, 70_000);
     // grid: each stage slow in turn × client information delay × echo policy
@@ -178,6 +181,7 @@ fn run_case(c: &Case) -> Outcome {
         EchoKind::WrongId => Echo::WrongId(1),
         EchoKind::Duplicate => Echo::Duplicate,
         EchoKind::StopAfter(k) => Echo::StopAfter(*k),
+        EchoKind::Previous => Echo::Previous,
     };
     let (sc, chosen) = scenario(c, echo, c.lat);
     let r = run(&sc);
@@ -196,6 +200,12 @@ fn run_case(c: &Case) -> Outcome {
     let unechoed: Option<usize> = match &c.echo {
         EchoKind::Never | EchoKind::WrongId => Some(0),
         EchoKind::StopAfter(k) => Some(*k),
+        // the second Keep Alive is answered with the id of the first (a different id, unless the
+        // server itself reused the id — then the echo is not "a different id")
+        EchoKind::Previous => (1..f.keep_alives.len().max(2)).find(|i| match (f.keep_alives.get(*i), f.keep_alives.get(*i - 1)) {
+            (Some(a), Some(b)) => a.0 != b.0,
+            _ => true,
+        }),
         _ => None,
     };
     let due = unechoed.and_then(|j| cal_ka.get(j + 1).copied());
@@ -290,7 +300,7 @@ pub fn run_prop(cli: &Cli) -> i32 {
     let mut report = Report::new(
         cli,
         "exploration",
-        "virtual-time schedules: grid of per-stage routing latency {0,1,15.9,16,17,40,100 s} × Client Information delay {0,5,20,50 s} × echo policy {prompt, delayed by 0.1%/50%/100%-1ms of the observed period, never, wrong id, duplicate, stop after 1/2}, plus random jittered schedules with unsolicited echoes; the period and tick alignment are inferred from a prompt-echo calibration run of the same schedule, only the 16 s upper bound is hard-coded; distinct = latency/echo class",
+        "virtual-time schedules: grid of per-stage routing latency {0,1,15.9,16,17,40,100 s} × Client Information delay {0,5,20,50 s} × echo policy {prompt, delayed by 0.1%/50%/100%-1ms of the observed period, never, wrong id, id of the previous Keep Alive, duplicate, stop after 1/2}, plus random jittered schedules with unsolicited echoes; the period and tick alignment are inferred from a prompt-echo calibration run of the same schedule, only the 16 s upper bound is hard-coded; distinct = latency/echo class",
     );
     report.assume("instants at which routing completes within 2 ms of a keep-alive tick are not judged");
     let cases = generate(cli);
